@@ -1,10 +1,122 @@
 import VOPyVerif.Drv.Proto
-/-! Driver front end for property C19 (line protocol → executable model). -/
+import VOPyVerif.Model.Eval
+/-! Driver front end for property C19 (gaps, ε-coverage, ε-F1).
+
+Arguments: `<v>` vector, `<M>` matrix, `<q>` rational, `<I>` nat list (see `Drv/Proto.lean`).
+
+* `smallm  <vi> <vj> <W> <alpha>` → `Eval.smallM` (flat `alpha_vec`): rational, or `ValueError`
+* `smallmb <vi> <vj> <W> <alpha>` → `Eval.smallMB` (`(N,1)` column `alpha_vec`, numpy broadcast)
+* `delta   <mu> <W> <alpha>`      → `Eval.delta`  : vector, or `ValueError`
+* `deltab  <mu> <W> <alpha>`      → `Eval.deltaB` : vector, or `ValueError`
+* `dist2   <vi> <vj> <W>`         → `d2 <q> <y> <lam>` (certified squared distance to the covering
+                                     polyhedron), `infeasible <lam>` (certified empty) or `unknown`
+* `iscov   <vi> <vj> <eps> <W>`   → `1` / `0` / `unknown`  (`Eval.isCoveredPt`)
+* `kkt     <W> <b> <y> <lam>`     → `ok` / `fail` (`Eval.checkKKT` with `D = y.length`)
+* `uncset  <P> <Phat> <mu> <eps> <W>` → nat list (`get_uncovered_set`), `IndexError`, `unknown`
+* `uncsize <pts> <hat> <eps> <W>` → nat (`get_uncovered_size` on point arrays) or `unknown`
+* `f1      <mu> <W> <alpha> <truth> <pred> <eps>` → rational, `nan`, `unknown`, `ValueError`,
+                                     `IndexError`  (`Eval.f1`: gaps of the geometric definition)
+* `f1b     …same…`                → `Eval.f1B` (gaps as the code computes them with the column α)
+* `f1d     <mu> <W> <delta> <truth> <pred> <eps>` → score from a given gap vector
+* `f1parts <mu> <W> <delta> <truth> <pred> <eps>` → `tp,fp,unc` or `unknown` / `IndexError`
+-/
 namespace VOPy.Drv.C19
-open VOPy VOPy.Proto
+open VOPy VOPy.Proto VOPy.Eval
+
+def fmtOptRat : Option Rat → String
+  | some q => fmtRat q
+  | none => "ValueError"
+
+def fmtOptVec : Option Vec → String
+  | some v => fmtVec v
+  | none => "ValueError"
+
+def fmtF1 : F1Res → String
+  | .val q => fmtRat q
+  | .nan => "nan"
+  | .unknown => "unknown"
+  | .valueError => "ValueError"
+
+def inRange (n : Nat) (l : List Nat) : Bool := l.all (· < n)
 
 def handle (args : List String) : String :=
   match args with
+  | ["smallm", vi, vj, w, a] =>
+    match parseVec vi, parseVec vj, parseMat w, parseVec a with
+    | some vi, some vj, some W, some α => fmtOptRat (smallM vi vj W α)
+    | _, _, _, _ => bad
+  | ["smallmb", vi, vj, w, a] =>
+    match parseVec vi, parseVec vj, parseMat w, parseVec a with
+    | some vi, some vj, some W, some α => fmtOptRat (smallMB vi vj W α)
+    | _, _, _, _ => bad
+  | ["delta", mu, w, a] =>
+    match parseMat mu, parseMat w, parseVec a with
+    | some mu, some W, some α => fmtOptVec (delta mu W α)
+    | _, _, _ => bad
+  | ["deltab", mu, w, a] =>
+    match parseMat mu, parseMat w, parseVec a with
+    | some mu, some W, some α => fmtOptVec (deltaB mu W α)
+    | _, _, _ => bad
+  | ["dist2", vi, vj, w] =>
+    match parseVec vi, parseVec vj, parseMat w with
+    | some vi, some vj, some W =>
+      match coverSolve vi vj W with
+      | .dist2 d y lam => s!"d2 {fmtRat d} {fmtVec y} {fmtVec lam}"
+      | .infeasible lam => s!"infeasible {fmtVec lam}"
+      | .unknown => "unknown"
+    | _, _, _ => bad
+  | ["iscov", vi, vj, e, w] =>
+    match parseVec vi, parseVec vj, parseRat e, parseMat w with
+    | some vi, some vj, some ε, some W =>
+      match isCoveredPt vi vj ε W with
+      | some b => fmtBool b
+      | none => "unknown"
+    | _, _, _, _ => bad
+  | ["kkt", w, b, y, l] =>
+    match parseMat w, parseVec b, parseVec y, parseVec l with
+    | some W, some b, some y, some lam => if checkKKT y.length W b y lam then "ok" else "fail"
+    | _, _, _, _ => bad
+  | ["uncset", p, ph, mu, e, w] =>
+    match parseNats p, parseNats ph, parseMat mu, parseRat e, parseMat w with
+    | some P, some Ph, some mu, some ε, some W =>
+      if !(inRange mu.length P && inRange mu.length Ph) then "IndexError" else
+      match uncoveredSet (covIdx mu ε W) P Ph with
+      | some l => fmtNats l
+      | none => "unknown"
+    | _, _, _, _, _ => bad
+  | ["uncsize", p, ph, e, w] =>
+    match parseMat p, parseMat ph, parseRat e, parseMat w with
+    | some P, some Ph, some ε, some W =>
+      match uncoveredSize (covPt ε W) P Ph with
+      | some n => toString n
+      | none => "unknown"
+    | _, _, _, _ => bad
+  | ["f1", mu, w, a, t, p, e] =>
+    match parseMat mu, parseMat w, parseVec a, parseNats t, parseNats p, parseRat e with
+    | some mu, some W, some α, some T, some P, some ε =>
+      if !(inRange mu.length T && inRange mu.length P) then "IndexError" else
+      fmtF1 (f1 mu W α T P ε)
+    | _, _, _, _, _, _ => bad
+  | ["f1b", mu, w, a, t, p, e] =>
+    match parseMat mu, parseMat w, parseVec a, parseNats t, parseNats p, parseRat e with
+    | some mu, some W, some α, some T, some P, some ε =>
+      if !(inRange mu.length T && inRange mu.length P) then "IndexError" else
+      fmtF1 (f1B mu W α T P ε)
+    | _, _, _, _, _, _ => bad
+  | ["f1d", mu, w, d, t, p, e] =>
+    match parseMat mu, parseMat w, parseVec d, parseNats t, parseNats p, parseRat e with
+    | some mu, some W, some ds, some T, some P, some ε =>
+      if !(inRange mu.length T && inRange mu.length P) then "IndexError" else
+      fmtF1 (f1FromDelta mu W (some ds) T P ε)
+    | _, _, _, _, _, _ => bad
+  | ["f1parts", mu, w, d, t, p, e] =>
+    match parseMat mu, parseMat w, parseVec d, parseNats t, parseNats p, parseRat e with
+    | some mu, some W, some ds, some T, some P, some ε =>
+      if !(inRange mu.length T && inRange mu.length P) then "IndexError" else
+      match f1Counts (covIdx mu ε W) (goodIdx ds ε) T P with
+      | some (tp, fp, unc) => s!"{tp},{fp},{unc}"
+      | none => "unknown"
+    | _, _, _, _, _, _ => bad
   | _ => bad
 
 end VOPy.Drv.C19
